@@ -63,7 +63,7 @@ func (o *OracleC07) OnOut(n *Node, st *Step, out *Out) {
 				return
 			}
 			r.commitOut = true
-			if !r.preCommitOut && n.kind == FAmnesia && n.d.MyIndex >= 0 && n.d.PreCommitPayloads[n.d.MyIndex] != nil {
+			if !r.preCommitOut && n.kind == FAmnesia && n.inc > 1 && n.d.MyIndex >= 0 && n.d.PreCommitPayloads[n.d.MyIndex] != nil {
 				r.preCommitOut = true // a restarted node recovered its own earlier pre-commit from its peers
 			}
 			if !r.preCommitOut {
